@@ -25,7 +25,7 @@ ASSUMPTIONS = [
 BOUNDS = {
     "quick": "5x5 frame/3x3 PSF: all interior masks with <=4 unmasked pixels or (holes/2+ components, <=7 pixels) with object "
              "lists of length 1..2 over {rectA,rectB,del,func,funcS}; 7x5/5x7 frames with 3x1,1x3,5x3,3x5 PSFs: all interior "
-             "masks of the 3x3/.. interior up to 5 pixels with a 4-list menu; PSF kinds nonneg+signed; sub-size 1,2",
+             "masks of the 3x3/.. interior up to 5 pixels with a 4-list menu; PSF kinds nonneg+signed; sub-size 1, 2 and a per-pixel map (2,1,3 cyclic)",
     "thorough": "all 511 interior masks of 5x5/3x3 x all ordered lists of length 1..2 plus a length-3 menu; non-square PSFs "
                 "on all interior masks; sub-size 1,2",
 }
@@ -96,7 +96,7 @@ def cases(tier, seed):
             for k, ol in enumerate(lists):
                 if tier == "quick" and (k + bits) % 5 != 0:
                     continue  # quick: every mask x PSF kind with a rotating fifth of the list menu (each list meets >= 50 masks)
-                sub = 1 + (k // 5 + bits) % 2
+                sub = (k // 5 + bits) % 3  # 0 = per-pixel map (2,1,3 cyclic), 1, 2 = uniform
                 yield [[5, 5], [3, 3], bits, kind, sub, ol, seed]
     # --- length-3 lists
     fam3 = [b for b in fam if b % (5 if tier == "quick" else 2) == 0]
